@@ -399,9 +399,12 @@ func (matrix *DenseInt16Matrix) PermuteRows(pi []int) error {
   if n != m {
     return fmt.Errorf("SymmetricPermutation(): matrix is not a square matrix")
   }
+  if len(pi) != n {
+    return fmt.Errorf("SymmetricPermutation(): permutation has invalid length")
+  }
   // permute matrix
   for i := 0; i < n; i++ {
-    if pi[i] < 0 || pi[i] > n {
+    if pi[i] < 0 || pi[i] >= n {
       return fmt.Errorf("SymmetricPermutation(): invalid permutation")
     }
     if i != pi[i] && pi[i] > i {
@@ -415,9 +418,12 @@ func (matrix *DenseInt16Matrix) PermuteColumns(pi []int) error {
   if n != m {
     return fmt.Errorf("SymmetricPermutation(): matrix is not a square matrix")
   }
+  if len(pi) != n {
+    return fmt.Errorf("SymmetricPermutation(): permutation has invalid length")
+  }
   // permute matrix
   for i := 0; i < m; i++ {
-    if pi[i] < 0 || pi[i] > n {
+    if pi[i] < 0 || pi[i] >= n {
       return fmt.Errorf("SymmetricPermutation(): invalid permutation")
     }
     if i != pi[i] && pi[i] > i {
